@@ -11,17 +11,18 @@ import subprocess, os
 from vlib import runner
 ID = "C02"
 MODULE = "PotasscoVerif.Props.C02"
-EXTRA_MODULES = ["PotasscoVerif.Props.C02sem", "PotasscoVerif.Lemmas.AspEnum", "PotasscoVerif.Props.C02x", "PotasscoVerif.Lemmas.ConvertExt"]
+EXTRA_MODULES = ["PotasscoVerif.Props.C02sem", "PotasscoVerif.Lemmas.AspEnum", "PotasscoVerif.Props.C02x", "PotasscoVerif.Lemmas.ConvertExt", "PotasscoVerif.Props.C02m", "PotasscoVerif.Lemmas.ConvertSteps"]
 THEOREMS = ["PotasscoVerif.C02.C02_stable_models", "PotasscoVerif.C02.C02_equivalence", "PotasscoVerif.C02.C02_cost", "PotasscoVerif.C02.C02_compute_false",
             "PotasscoVerif.Asp.translation_stable", "PotasscoVerif.Asp.translation_stable_back", "PotasscoVerif.Asp.stableB_iff", "PotasscoVerif.Asp.stableModels_complete", "PotasscoVerif.Asp.stableModels_sound",
             "PotasscoVerif.C02.C02_map_injective", "PotasscoVerif.C02.C02_map_stable", "PotasscoVerif.C02.C02_aux_fresh", "PotasscoVerif.C02.convert_steps",
             "PotasscoVerif.C02.C02_minimize_flip", "PotasscoVerif.C02.C02_minimize_sorted", "PotasscoVerif.C02.flushMinimize_order",
             "PotasscoVerif.C02.C02_externals_passed", "PotasscoVerif.C02.C02_stable_models_ext", "PotasscoVerif.C02.C02_equivalence_ext", "PotasscoVerif.C02.C02_cost_ext",
-            "PotasscoVerif.C02.extRules_out", "PotasscoVerif.C02.flushExternal_specT"]
-PARTIAL = {"C02_equivalence across several steps": "C02_stable_models / C02_equivalence / C02_cost (externals compiled away) and C02_stable_models_ext / C02_equivalence_ext / C02_cost_ext / C02_externals_passed "
-           "(externals passed on with the clasp extension) are proved for one program step of rules (all head kinds, normal and weight bodies), minimize, output, external and edge directives "
-           "(an edge counts as asking to show its helper name `_edge(s,t)`); the answer sets of several incremental steps taken together are decided by the brute-force answer-set oracle on the "
-           "implementation's output and by model == implementation; across steps only the atom map is proved (C02_map_stable, C02_aux_fresh)"}
+            "PotasscoVerif.C02.extRules_out", "PotasscoVerif.C02.flushExternal_specT",
+            "PotasscoVerif.C02.steps_JX", "PotasscoVerif.C02.C02_steps_translation", "PotasscoVerif.C02.C02_steps_stable_models"]
+PARTIAL = {"several steps with external directives": "C02_steps_stable_models: for incremental programs of ANY number of steps without external directives (extension on or off) the rules given so far and the rules "
+           "emitted so far have the same answer sets, one to one under ONE atom map (C02_steps_translation, also with the extension on and any externals: the rule part). With external directives AND several steps "
+           "the declarative reading of the externals across steps (which step's value counts for an atom declared in several steps, an atom defined in a later step) is not fixed by `progOf`; there the "
+           "externals of each step are covered by C02_externals_passed / C02_stable_models_ext step by step and the answer sets by model == implementation; shown names and costs are proved per step"}
 BSIZES = (4096,)
 LPCONVERT = True
 RULE = ("programs of 1..8 directives over 2..6 atoms: disjunctive/choice heads incl. empty, normal and weight bodies (bounds < 0, 0, reachable, unreachable; weights 0/1/mixed), "
@@ -29,7 +30,7 @@ RULE = ("programs of 1..8 directives over 2..6 atoms: disjunctive/choice heads i
         "(also on head atoms), with clasp extensions on and off; multi-step programs for the mapping; a sample through the lpconvert executable; "
         "distinct = distinct call lists; non-trivial = at least 4 directives")
 TRUSTED = ["props/asp_sem.py (reduct-based stable models for weight constraint programs; cross-checked on every run against the executable enumerator of Spec/Asp.lean, which is proved to decide the declarative definition: stableB_iff)"]
-ASSUMPTIONS = ["fewer than 2^28 atoms are mapped (bit-field smId:28)", "output names contain no NUL", "semantic oracle on single-step programs; multi-step programs only for the atom map",
+ASSUMPTIONS = ["fewer than 2^28 atoms are mapped (bit-field smId:28)", "output names contain no NUL", "semantic oracle on single-step programs and on multi-step programs without external directives (rules of all steps); multi-step programs with externals only for the atom map",
                "std::sort of symbols with equal atoms is modelled as stable (two names for one smodels atom arise only from an _edge atom that also carries a heuristic)"]
 TECHNIQUE = "Lean 4 theorems on the converter model against a stable-model semantics (answer sets, shown names and costs preserved one to one for a program step; atom map injective/stable/fresh auxiliaries; minimize rewriting) + differential correspondence with the real SmodelsConvert and lpconvert + brute-force answer-set oracle"
 LEVEL_TEXT = ("Reference semantics Spec/Asp.lean (stable models with disjunctive/choice heads and weight bodies, reduct as a two-interpretation satisfaction relation). "
@@ -42,8 +43,10 @@ LEVEL_TEXT = ("Reference semantics Spec/Asp.lean (stable models with disjunctive
               "Externals passed on with the clasp extension (Lemmas/ConvertExt.lean, Props/C02x.lean): C02_externals_passed — the external calls of the emitted step are exactly the pending externals (atoms declared external while no rule "
               "had defined them, in order), each as (image, LAST value declared); extRules_out — read like the given ones (`progOf`), they denote the renamed rules of the given externals (an image heads an emitted rule iff its atom heads a given "
               "rule); C02_stable_models_ext / C02_equivalence_ext / C02_cost_ext: answer sets, shown names and costs correspond as above for EVERY step with ANY external directives converted with the extension on. "
-              "Multi-step semantics: brute-force oracle on the implementation + model == implementation.")
-LEVEL_NOTE = ("Proof of the single-step equivalence (answer sets, shown names, cost; externals compiled away AND passed on with the extension); partial for multi-step + correspondence (~4k quick / 100k thorough programs × ext on/off, sample through lpconvert) + answer-set oracle on small programs. Trusted: Lean kernel+axioms, "
+              "Several steps (Lemmas/ConvertSteps.lean, Props/C02m.lean): the invariants J and XI are carried from step to step (step_JX, steps_JX: the flags of atoms survive the end of a step, the pending lists are emptied); "
+              "C02_steps_translation: after ANY number of steps all emitted rules are a translation of all given rules under one atom map and one table of auxiliary atoms (no external directives, or extension on); "
+              "C02_steps_stable_models: hence for incremental programs without external directives the cumulative answer sets correspond one to one. The check's answer-set oracle now also runs on such multi-step programs.")
+LEVEL_NOTE = ("Proof of the single-step equivalence (answer sets, shown names, cost; externals compiled away AND passed on with the extension); several steps without externals; partial for several steps WITH externals + correspondence (~4k quick / 100k thorough programs × ext on/off, sample through lpconvert) + answer-set oracle on small programs. Trusted: Lean kernel+axioms, "
               "asp_sem.py, harness, generator in props/c02.py. D9 (INT_MIN minimize weight) repaired.")
 
 I32 = 2**31 - 1
@@ -162,6 +165,27 @@ def check_semantics(c, emitted_words, amap):
     if prios != sorted(set(prios)): return ("C02:cost", "minimize statements not emitted once per priority in ascending order", {"prios": prios})
     return "ok"
 
+def check_steps(c, emitted_words, amap):
+    """the rules of all steps against the rules emitted in all steps"""
+    orig = {"rules": [], "externals": {}, "assume": [], "outputs": [], "minimize": []}
+    for st in c["steps"]:
+        for s in st:
+            if s[0] == "R": orig["rules"].append((s[1], s[2], ("n", s[3])))
+            elif s[0] == "S": orig["rules"].append((s[1], s[2], ("s", s[3], [tuple(x) for x in s[4]])))
+    conv = parse_words([w for w in emitted_words if w[0] in "RSA"])
+    oa = sorted(asp_sem.atoms_of(orig)); ca = sorted(asp_sem.atoms_of(conv))
+    if len(oa) > 6 or len(ca) > 8: return None
+    if len(set(amap.values())) != len(amap): return ("C02:atom-map", "the atom map is not injective after several steps", {"map": amap})
+    sm_o = asp_sem.stable_models(orig, oa); sm_c = asp_sem.stable_models(conv, ca)
+    img = {a: amap[a] for a in oa if a in amap}
+    proj_o = sorted(sorted(img[a] for a in I if a in img) for I in sm_o)
+    proj_c = sorted(sorted(x for x in J if x in img.values()) for J in sm_c)
+    if len(set(map(tuple, proj_c))) != len(sm_c): return ("C02:not-one-to-one", "two stable models of the program emitted in several steps agree on all mapped atoms", {})
+    if proj_o != proj_c:
+        return ("C02:stable-models", "several steps: the stable models of the rules emitted so far (restricted to mapped atoms) are not those of the rules given so far",
+                {"orig": [sorted(I) for I in sm_o][:8], "conv": [sorted(J) for J in sm_c][:8], "map": img})
+    return "ok"
+
 def evaluate(ctx, cases):
     cases = [dict(c, steps=[[tuple(s) for s in st] for st in c["steps"]]) for c in cases]
     lines = ["cv %d %s" % (c["ext"], " ".join(words(c))) for c in cases]
@@ -193,6 +217,12 @@ def evaluate(ctx, cases):
                     if v is None: ctx.dist["too-large-for-oracle"] += 1
                     elif v == "ok": ctx.dist["oracle-ok"] += 1
                     else: ctx.fail(v[0], v[1], jc, dict(v[2], emitted=" ".join(emitted)[:500]))
+            elif not any(s[0] == "X" for st in c["steps"] for s in st):
+                # several steps without external directives (C02_steps_stable_models): the rules given so far and the rules emitted so far have the same answer sets
+                v = check_steps(c, emitted, amap)
+                if v is None: ctx.dist["too-large-for-oracle"] += 1
+                elif v == "ok": ctx.dist["oracle-ok (several steps)"] += 1
+                else: ctx.fail(v[0], v[1], jc, dict(v[2], emitted=" ".join(emitted)[:500]))
         ctx.compared += 1
         if i != m: ctx.disagree("SmodelsConvert", jc, i[:600], m[:600])
     # --- the oracle against the specification: the stable models asp_sem.py computes for the ORIGINAL rules must be those of the
